@@ -168,7 +168,10 @@ class TracedFileIO(io.FileIO):
         if not SHIM.enabled:
             return super().write(data)
         ev = SHIM.event('write', self._vroot, self._vrel, len=len(data), append=self._vappend)
+        if getattr(SHIM.handler, 'want_data', False):
+            ev['data'] = bytes(data)
         SHIM.handler.pre(ev)
+        ev.pop('data', None)
         try:
             if ev.get('partial') is not None:
                 # torn write requested by the crash driver: only a prefix reaches the kernel
